@@ -44,6 +44,7 @@ type config struct {
 	smtlog    string
 	samples   int
 	stopFirst bool
+	vioGrace  int
 	tags      string
 }
 
@@ -67,6 +68,7 @@ func parseFlags(args []string) *config {
 	fs.StringVar(&c.smtlog, "smtlog", "", "write solver input of worker 0 to this file")
 	fs.IntVar(&c.samples, "samples", 3, "path samples to keep")
 	fs.BoolVar(&c.stopFirst, "stop-first", false, "stop at the first violation")
+	fs.IntVar(&c.vioGrace, "vio-grace", 0, "after the first violation keep exploring at most this many seconds (0 = no limit)")
 	fs.StringVar(&c.tags, "tags", "verif", "build tags")
 	fs.Parse(args)
 	return c
@@ -490,6 +492,7 @@ func master(cfg *config) int {
 	stubs := map[string]bool{}
 	vioSeen := map[string]bool{}
 	sampleBudget := cfg.samples
+	var firstVio time.Time
 	dispatch := func(k int, it workItem) {
 		inflight++
 		go func() {
@@ -634,6 +637,13 @@ func master(cfg *config) int {
 		}
 		if cfg.maxPaths > 0 && sum.Paths >= cfg.maxPaths && stop == "" && (len(queue) > 0 || inflight > 0) {
 			stop = "max-paths"
+		}
+		if cfg.vioGrace > 0 && len(sum.Violations) > 0 {
+			if firstVio.IsZero() {
+				firstVio = time.Now()
+			} else if time.Since(firstVio).Seconds() > float64(cfg.vioGrace) && stop == "" && (len(queue) > 0 || inflight > 0) {
+				stop = "violation-grace"
+			}
 		}
 		if cfg.maxSecs > 0 && time.Since(t0).Seconds() > float64(cfg.maxSecs) && stop == "" && (len(queue) > 0 || inflight > 0) {
 			stop = "max-seconds"
